@@ -991,6 +991,14 @@ func genLayouts(p *pkgInfo, out string) {
 			recvPut = i >= 0 && j > i && !strings.Contains(b[i:j], "dataPool.Put") && strings.Contains(b, "defer dataPool.Put(datap)")
 		}
 	}
+	// tread.handle never puts a read buffer back itself: the reply still references it, and
+	// PayloadCleanup returns it (once) after the reply has been written
+	treadNoPut := false
+	if fd := p.methods["tread.handle"]; fd != nil {
+		b := norm(src(fd.Body))
+		treadNoPut = !strings.Contains(b, "readBufPool.Put(") && strings.Contains(b, "readBufPool.Get()")
+	}
+	fmt.Fprintf(&sb, "def treadNeverReleasesItsBuffer : Bool := %v\n", treadNoPut)
 	fmt.Fprintf(&sb, "def sendBufferReleasedAfterWrite : Bool := %v\n", sendAfter)
 	fmt.Fprintf(&sb, "def recvBufferReleasedOnReturn : Bool := %v\n", recvPut)
 	sb.WriteString("\nend P9.Gen\n")
